@@ -10,6 +10,7 @@ import (
 	"net"
 	"strings"
 	"sync"
+	"sync/atomic"
 	"time"
 
 	"github.com/mycoria/mycoria/config"
@@ -111,6 +112,8 @@ type Conn struct {
 	in     *pipe
 	closed bool
 	mu     sync.Mutex
+	// ownerClosed: Close was called (by the code under test that owns this end), as opposed to Cut (the harness).
+	ownerClosed atomic.Bool
 }
 
 var _ net.Conn = &Conn{}
@@ -135,8 +138,19 @@ func (c *Conn) Write(b []byte) (int, error) {
 	return len(b), nil
 }
 
-// Close closes this end: the local reader gets an error, the far end sees EOF.
+// Close closes this end: the local reader gets an error, the far end sees EOF. It is what the code under test
+// calls on its connection; the harness itself uses Cut where the difference matters (C16 takes "the link has
+// closed its connection" as the structural sign that LinkBase.Close has finished unregistering the link).
 func (c *Conn) Close() error {
+	c.ownerClosed.Store(true)
+	return c.Cut()
+}
+
+// OwnerClosed reports whether Close (not Cut) was called on this end.
+func (c *Conn) OwnerClosed() bool { return c.ownerClosed.Load() }
+
+// Cut is Close without the owner mark: the harness cutting the connection from outside.
+func (c *Conn) Cut() error {
 	c.mu.Lock()
 	c.closed = true
 	c.mu.Unlock()
@@ -462,13 +476,13 @@ func Handshake(w *Wire, a, b *Router, watchdog time.Duration) (ra, rb SetupResul
 			aDone, bDone = ra.Done, rb.Done
 			mu.Unlock()
 			if (aDone || w.pa.idle()) && (bDone || w.pb.idle()) && !(aDone && bDone) && !w.AnyParked() {
-				w.A.Close()
-				w.B.Close()
+				w.A.Cut()
+				w.B.Cut()
 			}
 		}
 		if time.Now().After(deadline) {
-			w.A.Close()
-			w.B.Close()
+			w.A.Cut()
+			w.B.Cut()
 			select {
 			case <-done:
 				mu.Lock()
